@@ -205,7 +205,14 @@ impl<'a> Gen<'a> {
                 };
                 (t.names[name], p)
             } else {
-                (1000 + self.rng.below(5), Binary::from(b"{}".to_vec()))
+                // ids no handler owns: far away, at the edge of the table, at the edge of u64
+                let id = match self.rng.below(4) {
+                    0 => u64::MAX,
+                    1 => names.len() as u64,
+                    2 => u64::MAX - names.len() as u64,
+                    _ => 1000 + self.rng.below(5),
+                };
+                (id, Binary::from(b"{}".to_vec()))
             };
             ReplyReq::Raw { id, on: self.rng.below(4) as u8, payload }
         };
@@ -410,7 +417,12 @@ impl Profile for F3 {
                         })
                         .collect();
                     if rng.chance(5, 6) {
-                        out.push((key, Fault::ReplyMeta { gas: rng.next() >> 20, events, responses }));
+                        let gas = match rng.below(5) {
+                            0 => u64::MAX,
+                            1 => 0,
+                            _ => rng.next() >> 20,
+                        };
+                        out.push((key, Fault::ReplyMeta { gas, events, responses }));
                     }
                 }
                 // f5 / f6: reply data absent or damaged
